@@ -5,9 +5,11 @@
    statements under the side condition early_morphisms (no rule concludes dom / cod, every dom / cod tuple is asserted
    before the first close): C17_partial, C17_*_partial.  The full statement C17_full is FALSE of the faithful model
    (finding F7): C17_full_refuted.
-   Missing for the full strength of the partial part: the side condition proved is stronger than "every morphism (with
-   dom and cod) precedes the first close after the facts it transports"; the finer condition is what checks/c17.py
-   tests on every generated history (gen/members_gen.late_transport). *)
+   A finer, state-dependent side condition is proved sufficient too: C17_partial_timely (Run.timely).
+   Missing for the full strength of the partial part: (1) rules that conclude dom / cod are excluded by both side
+   conditions; (2) the purely syntactic reading "every morphism (with dom and cod) precedes the first close after the
+   facts it transports" is not shown to imply timely in Coq; checks/c17.py tests it on every generated history
+   (gen/members_gen.late_transport: a disagreement without late_transport is a violation). *)
 From Coq Require Import List NArith Bool.
 From Members Require Import Model Run FactsBasic FactsMatch FactsSpec FactsTopo FactsFaithful FactsRun.
 Import ListNotations.
@@ -113,6 +115,25 @@ Theorem C17_history_indep_partial : forall n n' p h h' V V', wf_program p = true
 Proof. exact faithful_history_indep_partial. Qed.
 Print Assumptions C17_history_indep_partial.
 
+(* the finer side condition: whenever a dom / cod tuple is asserted, no old member tuple sits in the domain model of a
+   morphism it completes (Run.timely, evaluated along the faithful run; no rule concludes dom / cod).  A history in
+   which every morphism precedes the first close after the facts it transports satisfies it. *)
+Theorem C17_partial_timely : forall n n' p h V S, wf_program p = true -> wf_members p = true ->
+  timely n p h = true -> ends_with_close h ->
+  faithful_close n p h = Some V -> spec_run n' p h [] = Some S -> equiv_f V S.
+Proof. exact faithful_eq_spec_timely. Qed.
+Print Assumptions C17_partial_timely.
+
+Theorem C17_closed_partial_timely : forall n p h V, wf_program p = true -> wf_members p = true ->
+  timely n p h = true -> ends_with_close h -> faithful_close n p h = Some V ->
+  Closed p V /\ forall t, In t V <-> Derivable p (facts_of h) t.
+Proof. exact faithful_final_timely. Qed.
+Print Assumptions C17_closed_partial_timely.
+
+Theorem C17_early_timely : forall n p h, early_morphisms p h = true -> timely n p h = true.
+Proof. exact early_timely. Qed.
+Print Assumptions C17_early_timely.
+
 (* the statement at full strength: the emitted loop agrees with the specification on EVERY acyclic history of the
    fragment (faithful_close = Some includes acyclicity). It is false: F7. *)
 Definition C17_full : Prop :=
@@ -151,6 +172,18 @@ Example ex_history_indep_hypotheses :
   equiv_f (facts_of f7_history) (facts_of early_history) /\ early_morphisms f7_prog f7_history = false.
 Proof.
   split; [|reflexivity]. apply member_iso_b_sound. vm_compute. reflexivity.
+Qed.
+(* timely but not early: the morphism m1 -> m0 is asserted after a close, its domain m1 (= cb) holds no old tuple *)
+Definition timely_history : list mcall :=
+  [MFact (3, [0]); MFact (7, [0]); MFact (3, [1]); MFact (8, [1]); MFact (2, [2]); MFact (5, [0; 2]); MClose;
+   MFact (4, [3]); MFact (0, [3; 1]); MFact (1, [3; 0]); MFact (5, [1; 2]); MClose].
+Example ex_timely_hypotheses :
+  timely 10 f7_prog timely_history = true /\ early_morphisms f7_prog timely_history = false /\
+  timely 10 f7_prog f7_history = false /\
+  (exists V, faithful_close 10 f7_prog timely_history = Some V /\ mem (6, [2]) V = true /\ mem (5, [0; 2]) V = true).
+Proof.
+  split; [vm_compute; reflexivity|]. split; [vm_compute; reflexivity|]. split; [vm_compute; reflexivity|].
+  eexists. split; [vm_compute; reflexivity|]. split; vm_compute; reflexivity.
 Qed.
 (* a chain m0 -> m1 -> m2: inheritance along the composite, and nothing into the unconnected m3 *)
 Definition chain_prog : mprogram := {| mp_members := [5]; mp_funcs := [0; 1]; mp_rules := [] |}.
